@@ -2,26 +2,53 @@
   C18 — chordal decomposition and its reversal preserve the problem and its solution.
 
   Property theorems about the model in `ClarabelModel/Chordal/{AugStd,Reverse,AugCompact}`.
-  Proofs and helper lemmas: `ClarabelProofs/Lemmas/ChordalDecomp.lean`.
+  Proofs and helper lemmas: `ClarabelProofs/Lemmas/Chordal{Decomp,StdBlocks,ValidTree,Compact*,
+  ReverseCompact*,Completion}.lean`.
   Classes: [S] structural (holds of the f64 code as it runs), [F] exact in any ring/field.
 
-  Carried by theorems: the structure of `H` (one clique block = the packed upper triangle
-  of the clique, distinct rows inside a block, in range), `A_new = [A H; 0 -I]` column by
-  column and the zero padding of `P, q, b`, the feasibility equivalence of the augmented
-  equalities, `reverse_standard` = sum of the clique blocks for `s` and block average for
-  `z`, lengths `(n, m)`, and the data flow of `DefaultProblemData::new`.
+  Carried by theorems:
+  * standard form: the structure of `H` (one clique block = the packed upper triangle of the
+    clique, distinct rows inside a block, in range; globally `HI` = concatenation over the cones of
+    identity ranges / clique triangles, new cone list = zero cone of size `m` followed by the
+    original list with each decomposed PSD cone replaced by its clique cones; no panic on
+    well-formed patterns), `A_new = [A H; 0 -I]` column by column and the zero padding of
+    `P, q, b`, the feasibility equivalence of the augmented equalities with `s = Σ_K E_Kᵀ S_K E_K`
+    read off cone by cone, `reverse_standard` = sum of the clique blocks for `s` and block average
+    for `z` (also in block form), lengths `(n, m)`;
+  * compact form, for a clique tree satisfying the validity predicate `ValidPattern` (the
+    predicate of C17's oracle): `get_block_indices` = column-major triangle of the sorted clique
+    with overlap flags; every entry of a clique block is a non-overlap entry of exactly one clique;
+    `find_compact_A_b_and_cones` does not panic, places every stored entry of the PSD rows of `A`
+    and of `b` in the row of its owner clique, shifts the rows of other cones by the right offset,
+    emits one `(+1, -1)` column per overlap entry tying the child's row to the parent's row of the
+    same matrix entry, leaves no index at `usize::MAX`, new rows unique / injective / `< dim`, new
+    cone list and `cone_maps`; assembly of `A_new`, `b_new` (`new_from_triplets`, scatter);
+    the two slots of an overlap column belong to one overlap entry; `compact_equiv` (ring):
+    a point satisfying the compact equalities satisfies the original ones with
+    `S = Σ_K E_Kᵀ S_K E_K` (the overlap variables cancel); `decomp_reverse_compact` on the cone
+    list / cone maps of the transformation returns lengths `m`, `s` = that sum (it IS the `S` of
+    `compact_equiv`), `z` = the entry of the last visited clique containing the matrix entry (last
+    writer wins; the common value on consistent blocks);
+  * PSD completion: the index-level model writes only positions outside every clique block (in
+    range, covering the whole complement), hence the data-level model (LAPACK / BLAS results as an
+    explicit parameter) returns a matrix that agrees with the input on every clique block;
+  * the data flow of `DefaultProblemData::new`.
 
   NOT carried by a theorem (checked on every run by the correspondence with the model and
-  by the oracles of `harness/src/bin/c18.rs`): the compact transformation
-  (`compact_rows`: every original entry placed exactly once, overlap columns `±1`) and its
-  reversal — modelled and compared exactly, property stated by the oracle only;
-  `psd_complete` (LAPACK Cholesky / SVD are external): that the completed dual agrees with
-  every clique block is checked by the oracle, and that a PSD completion exists at all is
-  the Grone–Johnson–Sá–Wolkowicz theorem, which is ASSUMED (cited), not proved here;
-  the end-to-end clause "same verdict and objective with decomposition on / off".
+  by the oracles of `harness/src/bin/c18.rs`): the converse of `compact_equiv` (for an original
+  solution, overlap variables making the compact equalities hold exist — a flow argument on the
+  tree); that `ValidPattern` follows from C17's `ValidCliqueTree` (both restate the oracle's
+  clauses); that a PSD completion exists at all is the Grone–Johnson–Sá–Wolkowicz theorem, which
+  is ASSUMED (cited), not proved here; the end-to-end clause "same verdict and objective with
+  decomposition on / off".
 -/
 import ClarabelModel.Chordal.AugCompact
 import ClarabelProofs.Lemmas.ChordalDecomp
+import ClarabelProofs.Lemmas.ChordalStdBlocks
+import ClarabelProofs.Lemmas.ChordalCompactExample
+import ClarabelProofs.Lemmas.ChordalReverseCompactAll
+import ClarabelProofs.Lemmas.ChordalCompactBridge
+import ClarabelProofs.Lemmas.ChordalCompletion
 
 namespace Clarabel.C18
 open Clarabel Clarabel.Chordal Clarabel.Chordal.ChordalInfo
@@ -174,5 +201,560 @@ example :
     ((problemDataNew pre (fun x => some x.b.size) (fun _ x => x) d).2.map
       (fun p => (p.1.b.size, p.2.b.size))) = some (1, 1) := by
   rfl
+
+/-! ## the standard decomposition in terms of clique blocks
+(`ClarabelProofs/Lemmas/ChordalStdBlocks.lean`) -/
+
+/-- [S] `H_blocks` (global structure of `find_standard_H_and_cones`): when it succeeds, the row
+indices `HI` of the `1`s of `H` are the concatenation over the original cones, in order, of
+`start .. start + nvars` for a cone that is not decomposed and of the packed upper triangles
+(`subblockEntries`) of its cliques (post-order, sorted original coordinates) for a decomposed
+one; the new cone list is `ZeroConeT(m)` followed by the original list with every decomposed
+PSD cone replaced by the PSD cones of dimension `nblk[i]` of its cliques; `H` has `Σ nvars`
+rows and `lenH = |HI|` columns; every accessor used on the way succeeded (a decomposed cone
+is PSD). -/
+theorem H_blocks (ci : ChordalInfo) (h : StdH) (hok : ci.findStandardHAndCones = .ok h) :
+    h.HI.toList = (stdBlocks ci).flatMap Block.entries ∧
+    h.conesNew.toList = Cone.zero ci.initDims.2 :: stdCones ci ∧
+    h.rows = (ci.initCones.toList.map Cone.nvars).sum ∧
+    h.lenH = h.HI.size ∧
+    ∀ g ∈ stdGroups ci, g.AccessOk :=
+  find_standard_H_and_cones_spec ci h hok
+
+example : exStdH.HI.toList = (stdBlocks exStdCi).flatMap Block.entries ∧
+    exStdH.conesNew.toList = Cone.zero exStdCi.initDims.2 :: stdCones exStdCi ∧
+    exStdH.rows = (exStdCi.initCones.toList.map Cone.nvars).sum ∧
+    exStdH.lenH = exStdH.HI.size ∧ ∀ g ∈ stdGroups exStdCi, g.AccessOk :=
+  H_blocks exStdCi exStdH exStd_ok
+
+/-- [S] `H_no_panic`: if every stored pattern points to a PSD cone of the dimension of its
+`ordering` and is well formed (`StdOK`: sizes consistent, post-order in range, supernode and
+separator of each clique disjoint / repetition-free / in range, `ordering` injective into
+`0..d`, `nblk[i] = |clique i|`), then `find_standard_H_and_cones` returns a result (no index
+panic, the PSD assertion and the length assertion of `new_from_triplets` hold), every column
+of `H` has its `1` in a row `< rows` (the hypothesis `hHI` of `standard_equiv` /
+`reverse_standard`), every clique is strictly increasing (so the columns of one block hit
+pairwise different rows), the entries of the blocks of a cone lie in that cone's row range,
+and the blocks of a cone have as many columns as the new cones have variables. -/
+theorem H_no_panic (ci : ChordalInfo) (hci : ci.StdOK) :
+    ∃ h, ci.findStandardHAndCones = .ok h ∧
+      (∀ j, j < h.HI.size → h.HI.getD j 0 < h.rows) ∧
+      (∀ B ∈ stdBlocks ci, B.Sorted ∧ B.entries.Nodup) ∧
+      (∀ g ∈ stdGroups ci, (∀ B ∈ g.blocks, ∀ e ∈ B.entries,
+          g.start ≤ e ∧ e < g.start + g.cone.nvars) ∧
+        g.blocks.map Block.ncols = g.newCones.map Cone.nvars) := by
+  obtain ⟨h, hok⟩ := find_standard_H_and_cones_ok ci hci
+  refine ⟨h, hok, std_HI_lt_rows ci h hok hci,
+    fun B hB => ⟨stdBlocks_sorted ci hci B hB, B.entries_nodup (stdBlocks_sorted ci hci B hB)⟩,
+    fun g hg => ⟨g.entries_range (stdGroups_ok ci hci g hg),
+      g.ncols_eq_nvars (stdGroups_ok ci hci g hg)⟩⟩
+
+example : exStdCi.StdOK := exStdCi_ok
+
+/-- [F] `standard_blocks`: `s = H s̃` cone by cone.  Let `g` be the group of an original cone
+in the walk of `find_standard_H_and_cones` (`pre` the groups before it, whose number of
+columns `off` is the first column of `g`).  If `g` is not decomposed, `s[r] = s̃[off + (r -
+start)]` on the rows of the cone.  If `g` is the PSD cone of dimension `d` decomposed with
+pattern `p`, the row of the entry `(a, b)`, `a ≤ b < d`, of its triangle is
+`Σ_{i : a, b ∈ K_i} s̃[off + cliqueOffset p i + tri(pos_i a, pos_i b)]` — the sum of the
+scattered clique blocks `s = Σ_K E_Kᵀ S_K E_K`, each clique contributing at most one term. -/
+theorem standard_blocks [Semiring α] (ci : ChordalInfo) (h : StdH)
+    (hok : ci.findStandardHAndCones = .ok h) (hci : ci.StdOK) (st : Array α)
+    (hst : st.size = h.lenH) (pre post : List ConeGroup) (g : ConeGroup)
+    (hsplit : stdGroups ci = pre ++ g :: post) :
+    ∃ s, hGemv h.rows h.HI st = .ok s ∧ s.size = h.rows ∧
+      g.start + g.cone.nvars ≤ h.rows ∧
+      (g.pat = none → ∀ r, g.start ≤ r → r < g.start + g.cone.nvars →
+        s.getD r 0 = st.getD (blocksNcols (pre.flatMap ConeGroup.blocks) + (r - g.start)) 0) ∧
+      (∀ p d, g.pat = some p → g.cone = .psd d → ∀ a b, a ≤ b → b < d →
+        s.getD (g.start + coordToUpperTriangularIndex (a, b)) 0 =
+          ((List.range p.sntree.nCliques).map (fun i =>
+            if a ∈ (cliqueOrigD p i).toList ∧ b ∈ (cliqueOrigD p i).toList then
+              st.getD (blocksNcols (pre.flatMap ConeGroup.blocks) + cliqueOffset p i +
+                coordToUpperTriangularIndex ((cliqueOrigD p i).toList.idxOf a,
+                  (cliqueOrigD p i).toList.idxOf b)) 0
+            else 0)).sum) :=
+  std_gemv_cone_rows ci h hok hci st hst pre post g hsplit
+
+/-- non-vacuity of `standard_blocks` (cones `[nonneg 1, psd 3]`, cliques `{0,1}`, `{1,2}`):
+the hypotheses hold for the PSD cone's group … -/
+example := standard_blocks exStdCi exStdH exStd_ok exStdCi_ok
+  (#[10, 1, 2, 3, 4, 5, 6] : Array Int) rfl _ _ ⟨.psd 3, 1, some exStdPattern⟩ exStd_groups
+
+/-- … and the model computes: the two clique blocks overlap (add) in the entry `(1,1)` -/
+example : hGemv (α := Int) 7 exStdH.HI #[10, 1, 2, 3, 4, 5, 6] = .ok #[10, 1, 2, 7, 0, 5, 6] := by
+  rfl
+
+/-- [F] `standard_equiv_blocks`: the full equivalence with everything in block form.  With
+`s₀ = 0` the augmented equalities `[A H; 0 -I](x, y) + (s₀, s̃) = (b, 0)` hold iff `y = s̃`
+and `A x + Σ_B (scattered block B of s̃) = b`, and that sum is the vector `s` computed by the
+model (`blockSum … r = Σ_B Block.term`: the identity block of a plain cone copies, the block
+of a clique contributes `S_K[pos a, pos b]` to the entry `(a, b)` when `a, b ∈ K`). -/
+theorem standard_equiv_blocks [Ring α] (ci : ChordalInfo) (h : StdH)
+    (hok : ci.findStandardHAndCones = .ok h) (hci : ci.StdOK) (st : Array α)
+    (ax b y : Nat → α) (hst : st.size = h.lenH) :
+    ∃ s, hGemv h.rows h.HI st = .ok s ∧ s.size = h.rows ∧
+      (∀ r, r < h.rows → s.getD r 0 = blockSum (stdBlocks ci) 0 (fun j => st.getD j 0) r) ∧
+      (((∀ r, r < h.rows → ax r + blockSum (stdBlocks ci) 0 y r + 0 = b r) ∧
+          (∀ j, j < h.lenH → - y j + st.getD j 0 = 0)) ↔
+       ((∀ j, j < h.lenH → y j = st.getD j 0) ∧
+          (∀ r, r < h.rows → ax r + blockSum (stdBlocks ci) 0 (fun j => st.getD j 0) r = b r))) :=
+  Clarabel.Chordal.standard_equiv_blocks ci h hok hci st ax b y hst
+
+example := standard_equiv_blocks exStdCi exStdH exStd_ok exStdCi_ok
+  (#[10, 1, 2, 3, 4, 5, 6] : Array Int) (fun _ => 0) (fun _ => 0) (fun _ => 0) rfl
+
+/-- [F] `reverse_standard_blocks`: `decomp_reverse_standard` does not panic, `s[r]` is the sum
+of the scattered blocks of `s̃ = old_s[m..]`, and `z[r]` is the same sum for `z̃` divided by
+`c_r` when `c_r > 1`, where `c_r` — the block sum of the all-ones vector — is the number of
+blocks that contain the entry `r`. -/
+theorem reverse_standard_blocks [Semiring α] [Div α] [LT α] [DecidableLT α]
+    (ci : ChordalInfo) (h : StdH) (hok : ci.findStandardHAndCones = .ok h) (hci : ci.StdOK)
+    (oldS oldZ : Array α) (hS : oldS.size = h.rows + h.lenH) (hZ : oldZ.size = h.rows + h.lenH) :
+    ∃ s z : Array α, decompReverseStandard h h.rows oldS oldZ = .ok (s, z) ∧
+      s.size = h.rows ∧ z.size = h.rows ∧
+      (∀ r, r < h.rows →
+        s.getD r 0 = blockSum (stdBlocks ci) 0 (fun j => oldS.getD (h.rows + j) 0) r ∧
+        z.getD r 0 =
+          if (1 : α) < blockSum (stdBlocks ci) 0 (fun _ => (1 : α)) r then
+            blockSum (stdBlocks ci) 0 (fun j => oldZ.getD (h.rows + j) 0) r /
+              blockSum (stdBlocks ci) 0 (fun _ => (1 : α)) r
+          else blockSum (stdBlocks ci) 0 (fun j => oldZ.getD (h.rows + j) 0) r) ∧
+      (∀ r, blockSum (stdBlocks ci) 0 (fun _ => (1 : α)) r =
+        (((stdBlocks ci).filter (fun B => decide (r ∈ B.entries))).length : α)) := by
+  obtain ⟨s, z, h1, h2, h3, h4⟩ := decomp_reverse_standard_blocks ci h hok hci oldS oldZ hS hZ
+  exact ⟨s, z, h1, h2, h3, h4, fun r => blockSum_one _ (stdBlocks_sorted ci hci) 0 r⟩
+
+example := reverse_standard_blocks exStdCi exStdH exStd_ok exStdCi_ok
+  (#[0, 0, 0, 0, 0, 0, 0, 10, 1, 2, 3, 4, 5, 6] : Array Rat)
+  (#[0, 0, 0, 0, 0, 0, 0, 10, 2, 4, 6, 8, 10, 12] : Array Rat) rfl rfl
+
+example : decompReverseStandard exStdH 7
+    (#[0, 0, 0, 0, 0, 0, 0, 10, 1, 2, 3, 4, 5, 6] : Array Int)
+    (#[0, 0, 0, 0, 0, 0, 0, 10, 2, 4, 6, 8, 10, 12] : Array Int)
+    = .ok (#[10, 1, 2, 7, 0, 5, 6], #[10, 2, 4, 7, 0, 10, 12]) := by rfl
+
+/-! ## the compact (clique-tree based) transformation
+(`ClarabelProofs/Lemmas/ChordalCompact{Basics,Blocks,Loops,Geom,Pattern,Info,Main,Assemble,Unique}.lean`)
+
+Hypotheses.  `ValidPattern p` (`Lemmas/ChordalValidTree.lean`) is the validity predicate of a
+clique tree that C17's oracle evaluates: consistent sizes, `snode_post` a duplicate-free list of
+live cliques, supernodes partitioning the vertices (consecutive numbering), supernode and separator
+of a clique disjoint and in range, root last with empty separator, every other clique precedes its
+parent and `separator = clique ∩ parent clique`, `nblk[i] = |clique i|`, `ordering` a permutation;
+the running intersection property follows (`ValidTree.running_intersection`).
+`CompactHyp ci A bInd` bundles: every pattern that the loop of `find_compact_A_b_and_cones` uses
+is valid and belongs to a PSD cone of its dimension (`ValidInfo`), `A` is a well-formed CSC
+matrix with strictly increasing rows per column and at least one column, every stored row of `A`
+and `b` lies in some cone, and every stored row inside a decomposed cone is an entry of some clique
+block (`Covered` — C17's coverage clause). -/
+
+/-- [S] `compact_block_indices`: for the sorted supernode `N` and separator `S` of a clique
+(disjoint, vertices `< nv`) `get_block_indices` returns the column-major upper triangle of the
+sorted clique `C = N ∪ S` — so the `counter` of the entry of clique positions `x ≤ y` is
+`coord_to_upper_triangular_index (x, y)`, the layout of the clique's PSD triangle — flagged as
+overlap iff both vertices are in the separator. -/
+theorem compact_block_indices (N S : Array Nat) (nv : Nat) (C : List Nat)
+    (hN : N.toList.Pairwise (· < ·)) (hS : S.toList.Pairwise (· < ·))
+    (hdisj : ∀ v, v ∈ N.toList → v ∉ S.toList)
+    (hC : C.Pairwise (· < ·)) (hmem : ∀ v, v ∈ C ↔ v ∈ N.toList ∨ v ∈ S.toList)
+    (hlt : ∀ v ∈ C, v < nv) :
+    getBlockIndices N S nv =
+      triPairs C (fun a b => decide (a ∈ S.toList) && decide (b ∈ S.toList)) ∧
+    ∀ x y, x ≤ y → y < C.length →
+      (getBlockIndices N S nv)[coordToUpperTriangularIndex (x, y)]? =
+        some (C.getD x 0, C.getD y 0,
+          decide (C.getD x 0 ∈ S.toList) && decide (C.getD y 0 ∈ S.toList)) := by
+  have h := getBlockIndices_eq N S nv C hN hS hdisj hC hmem hlt
+  refine ⟨h, fun x y hxy hy => ?_⟩
+  rw [h]
+  exact triPairs_getElem? C _ hC x y hxy hy
+
+example : getBlockIndices #[0] #[1] 3 = [(0, 0, false), (0, 1, false), (1, 1, true)] :=
+  (compact_block_indices #[0] #[1] 3 [0, 1] (by simp) (by simp) (by simp) (by simp) (by simp)
+    (by simp)).1
+
+/-- [S] `compact_owner`: on a valid pattern every entry `(a, b)`, `a ≤ b`, of some clique block is
+a NON-overlap entry (not both vertices in the separator) of exactly one clique — the clique that
+"owns" it; all other cliques containing the entry hold it as an overlap. -/
+theorem compact_owner (p : SPattern) (hp : ValidPattern p) (a b : Nat) (hab : a ≤ b) (i0 : Nat)
+    (hi0 : i0 < p.sntree.nCliques) (ha : a ∈ p.cliqueO i0) (hb : b ∈ p.cliqueO i0) :
+    (∃ i, i < p.sntree.nCliques ∧ a ∈ p.cliqueO i ∧ b ∈ p.cliqueO i ∧
+      ¬(a ∈ p.sepO i ∧ b ∈ p.sepO i)) ∧
+    (∀ i i', i < p.sntree.nCliques → i' < p.sntree.nCliques →
+      a ∈ p.cliqueO i → b ∈ p.cliqueO i → ¬(a ∈ p.sepO i ∧ b ∈ p.sepO i) →
+      a ∈ p.cliqueO i' → b ∈ p.cliqueO i' → ¬(a ∈ p.sepO i' ∧ b ∈ p.sepO i') → i = i') := by
+  constructor
+  · obtain ⟨i, x, y, hi, _, hy, hx', hy', hno⟩ := owner_exists p hp a b hab i0 hi0 ha hb
+    refine ⟨i, hi, ?_, ?_, ?_⟩
+    · rw [← hx']; exact getD_mem_of_lt (by omega)
+    · rw [← hy']; exact getD_mem_of_lt hy
+    · rw [← hx', ← hy']; exact hno
+  · intro i i' hi hi' h1 h2 h3 h4 h5 h6
+    exact owner_unique p hp i i' a b hi hi' h1 h2 h3 h4 h5 h6
+
+example : ValidPattern exPattern := exPattern_valid
+
+/-- [S] `compact_rows`: on valid input the main loop of `find_compact_A_b_and_cones` does not
+panic and returns triplets `(A_I, A_J, A_V)`, `(b_I, b_V)` such that
+* the `k`-th stored entry of `A` keeps its column and value and its row index is `NewRow` of its
+  original row: for a cone that is not decomposed the original row shifted by the cone's offset
+  (`newStart c + (r - rs c)`), for a decomposed PSD cone the row `blockRow … i x y` of the entry
+  in the block of the clique `i` that holds it as a non-overlap entry;
+* the same for every non-zero of `b`;
+* the `o`-th extra column (`o < n_overlaps`) is `(+1, -1)` with the rows given by `OvTarget`: the
+  row of an overlap entry `(x, y)` of a non-root clique `i` in `i`'s block and the row of the SAME
+  matrix entry in the block of `i`'s parent;
+* hence no index is left at the `usize::MAX` sentinel (`compact_rows_range`);
+* the new cone list is the original one with every decomposed PSD cone replaced by the PSD cones
+  of its cliques (dimension `|clique|`, descending post-order), `cone_maps` records
+  `(orig_index, (pattern, clique))`; `dim` / `n_overlaps` are the totals of the layout. -/
+theorem compact_rows [Neg α] [OfNat α 0] [OfNat α 1] [BEq α] (ci : ChordalInfo) (A : Csc α)
+    (b : Array α) (H : CompactHyp ci A (bIndOf b)) (hnz : A.colptr.getD A.n 0 ≤ A.nzval.size)
+    (hpos : A.colptr.getD A.n 0 + 2 * ci.ovBefore ci.initCones.size ≠ 0) :
+    ∃ tr, findCompactTriplets ci A b = .ok tr ∧
+      tr.dim = ci.newStart ci.initCones.size ∧ tr.nOverlaps = ci.ovBefore ci.initCones.size ∧
+      tr.AaI.size = A.colptr.getD A.n 0 + 2 * tr.nOverlaps ∧
+      tr.AaJ = ((List.range A.n).flatMap (fun c =>
+          List.replicate (A.colptr.getD (c + 1) 0 - A.colptr.getD c 0) c)).toArray ++
+        ((List.range tr.nOverlaps).flatMap (fun o => [A.n + o, A.n + o])).toArray ∧
+      tr.AaV = (A.nzval.extract 0 (A.colptr.getD A.n 0)) ++
+        ((List.range tr.nOverlaps).flatMap (fun _ => [(1 : α), -1])).toArray ∧
+      tr.bInd = bIndOf b ∧ tr.bVal = (bIndOf b).toList.map (fun i => b.getD i 0) ∧
+      tr.baI.size = (bIndOf b).size ∧
+      (∀ slot, slot < A.colptr.getD A.n 0 → NewRow ci (A.rowval.getD slot 0) (tr.AaI.getD slot 0)) ∧
+      (∀ y, A.colptr.getD A.n 0 ≤ y → y < A.colptr.getD A.n 0 + 2 * tr.nOverlaps →
+        OvTarget ci (A.colptr.getD A.n 0) y (tr.AaI.getD y 0)) ∧
+      (∀ slot, slot < (bIndOf b).size → NewRow ci ((bIndOf b).getD slot 0) (tr.baI.getD slot 0)) ∧
+      tr.conesNew.toList = (List.range ci.initCones.size).flatMap ci.conesOf ∧
+      tr.coneMaps.toList = (List.range ci.initCones.size).flatMap ci.mapsOf :=
+  findCompactTriplets_spec ci A b H hnz hpos
+
+/-- non-vacuity of `compact_rows` / `compact_assembled`: the 3×3 PSD cone with cliques `{0,1}`,
+`{1,2}`, one column with the three diagonal entries, `b = (0,0,7,0,0,0)` -/
+example : CompactHyp exCi exA (bIndOf exb) ∧ exA.colptr.getD exA.n 0 ≤ exA.nzval.size ∧
+    exA.colptr.getD exA.n 0 + 2 * exCi.ovBefore exCi.initCones.size ≠ 0 := ⟨exHyp, ex_hnz, ex_hpos⟩
+
+example : ∃ tr, findCompactTriplets exCi exA exb = .ok tr ∧ tr.bInd = bIndOf exb := by
+  obtain ⟨tr, h, _, _, _, _, _, h7, _⟩ := compact_rows exCi exA exb exHyp ex_hnz ex_hpos
+  exact ⟨tr, h, h7⟩
+
+/-- [S] `compact_rows_exactly_once`: the new row of an original row is unique ("placed exactly
+once, in the clique that owns it"), different original rows get different new rows, and every new
+row is a row of the compact problem (`< dim`; in particular not the `usize::MAX` sentinel). -/
+theorem compact_rows_exactly_once (ci : ChordalInfo) (hv : ValidInfo ci) :
+    (∀ r v v', NewRow ci r v → NewRow ci r v' → v = v') ∧
+    (∀ r r' v, NewRow ci r v → NewRow ci r' v → r = r') ∧
+    (∀ r v, NewRow ci r v → v < ci.newStart ci.initCones.size) ∧
+    (∀ nnz slot v, OvTarget ci nnz slot v → v < ci.newStart ci.initCones.size) :=
+  ⟨fun _ _ _ h h' => h.unique hv h', fun _ _ _ h h' => h.inj hv h', fun _ _ h => h.lt_dim hv,
+    fun _ _ _ h => h.lt_dim hv⟩
+
+example : ValidInfo exCi := exCi_valid
+
+/-- [F] `compact_assembled`: on valid input `find_compact_A_b_and_cones` does not panic; `A_new`
+is a canonical CSC matrix with `dim` rows and `n + n_overlaps` columns whose dense entry `(i, j)` is
+the sum of the values of the triplets of `compact_rows` at `(i, j)`; `b_new` has length `dim`, is
+`0` on every row that is not the new row of a non-zero of `b`, and holds `b[r]` at the new row of
+`r` (the new rows of different `r` are different by `compact_rows_exactly_once`). -/
+theorem compact_assembled [Ring α] [BEq α] (ci : ChordalInfo) (A : Csc α)
+    (b : Array α) (H : CompactHyp ci A (bIndOf b)) (hnz : A.colptr.getD A.n 0 ≤ A.nzval.size)
+    (hpos : A.colptr.getD A.n 0 + 2 * ci.ovBefore ci.initCones.size ≠ 0) :
+    ∃ tr Anew bnew, findCompactTriplets ci A b = .ok tr ∧
+      findCompactAbAndCones ci A b = .ok (Anew, bnew, tr.conesNew, tr.coneMaps) ∧
+      Clarabel.C16.Canonical Anew ∧ Anew.m = tr.dim ∧ Anew.n = A.n + tr.nOverlaps ∧
+      (∀ i j, j < A.n + tr.nOverlaps → Anew.toDense i j =
+        (((tr.AaI.toList.zip (tr.AaJ.toList.zip tr.AaV.toList)).filter
+          (fun t => t.1 == i && t.2.1 == j)).map (·.2.2)).sum) ∧
+      bnew.size = tr.dim ∧
+      (∀ r, (∀ k, k < tr.bInd.size → tr.baI.getD k 0 ≠ r) → bnew.getD r 0 = 0) ∧
+      (∀ k, k < tr.bInd.size →
+        (∀ k', k < k' → k' < tr.bInd.size → tr.baI.getD k' 0 ≠ tr.baI.getD k 0) →
+        bnew.getD (tr.baI.getD k 0) 0 = tr.bVal.getD k 0) :=
+  findCompactAbAndCones_spec ci A b H hnz hpos
+
+example : ∃ Anew bnew cones maps, findCompactAbAndCones exCi exA exb = .ok (Anew, bnew, cones, maps) := by
+  obtain ⟨tr, Anew, bnew, _, h, _⟩ := compact_assembled exCi exA exb exHyp ex_hnz ex_hpos
+  exact ⟨Anew, bnew, _, _, h⟩
+
+/-! ## equivalence of the compact problem with the original one -/
+
+/-- [S] `compact_overlap_pairs`: the two slots of the `o`-th overlap column belong to ONE overlap
+entry (the enumeration of the overlap entries is injective): the `+1` sits in the entry's row in the
+child clique `i`, the `-1` in the row of the same matrix entry in the parent clique `j`. -/
+theorem compact_overlap_pairs (ci : ChordalInfo) (hv : ValidInfo ci) (nnz o v0 v1 : Nat)
+    (h0 : OvTarget ci nnz (nnz + 2 * o) v0) (h1 : OvTarget ci nnz (nnz + 2 * o + 1) v1) :
+    ∃ c p i j x y x' y', OvEntry ci c p i j x y x' y' ∧ o = ovIndex ci c p i x y ∧
+      v0 = p.blockRow (ci.newStart c) i x y ∧ v1 = p.blockRow (ci.newStart c) j x' y' :=
+  ov_pair hv nnz o v0 v1 h0 h1
+
+open Classical in
+/-- [F] `compact_equiv` (compact ⇒ original; ring): let `(A_I, A_J, A_V)`, `(b_I, b_V)` be the
+triplets of the compact problem, `xx` the values of its `n + n_overlaps` variables (`x` followed by
+the overlap variables) and `st` its slack.  If every row `ρ < dim` satisfies the compact equality
+`Σ_{k : A_I[k] = ρ} A_V[k]·xx[A_J[k]] + st[ρ] = Σ_{k : b_I[k] = ρ} b_V[k]`
+(`= (A_new xx)[ρ] + st[ρ] = b_new[ρ]`, `compact_assembled`), then every original row `r` satisfies
+`Σ_{k < nnz : rowval[k] = r} nzval[k]·x[col k] + S[r] = Σ_{k : bInd[k] = r} b_V[k]`
+(`= (A x)[r] + S[r] = b[r]`) with `S[r] = Σ_{ρ : OrigOf ρ r} st[ρ]`, the sum of the slack over
+all rows of the compact problem holding (a copy of) the original row `r` — the shifted row for a
+cone that is not decomposed, the rows of the entry in ALL clique blocks containing it for a
+decomposed cone: `S = Σ_K E_Kᵀ S_K E_K`.  The overlap variables drop out (`compact_overlap_pairs`:
+both rows of an overlap column hold the same original entry).
+NOT proved: the converse (existence of overlap variables for a given original solution). -/
+theorem compact_equiv [Ring α] [BEq α] (ci : ChordalInfo) (A : Csc α) (b : Array α)
+    (H : CompactHyp ci A (bIndOf b)) (hnz : A.colptr.getD A.n 0 ≤ A.nzval.size)
+    (hpos : A.colptr.getD A.n 0 + 2 * ci.ovBefore ci.initCones.size ≠ 0) :
+    ∃ tr, findCompactTriplets ci A b = .ok tr ∧
+      ∀ (xx st : Nat → α),
+        (∀ ρ, ρ < tr.dim →
+          (∑ k ∈ Finset.range tr.AaI.size,
+              if tr.AaI.getD k 0 = ρ then tr.AaV.getD k 0 * xx (tr.AaJ.getD k 0) else 0) + st ρ =
+          ∑ k ∈ Finset.range tr.bInd.size, if tr.baI.getD k 0 = ρ then tr.bVal.getD k 0 else 0) →
+        ∀ r,
+          (∑ k ∈ Finset.range (A.colptr.getD A.n 0),
+              if A.rowval.getD k 0 = r then A.nzval.getD k 0 * xx (tr.AaJ.getD k 0) else 0) +
+            (∑ ρ ∈ Finset.range tr.dim, if OrigOf ci ρ r then st ρ else 0) =
+          ∑ k ∈ Finset.range tr.bInd.size, if tr.bInd.getD k 0 = r then tr.bVal.getD k 0 else 0 := by
+  exact compact_equiv_forward ci A b H hnz hpos
+
+example : ∃ tr, findCompactTriplets exCi exA exb = .ok tr := by
+  obtain ⟨tr, h, _⟩ := compact_equiv exCi exA exb exHyp ex_hnz ex_hpos
+  exact ⟨tr, h⟩
+
+/-! ## reversal of the compact form (`reverse_compact.rs`) -/
+
+
+/-- [S] `reverse_compact_block` (one clique of `decomp_reverse_compact`, valid pattern): no panic,
+`row_ptr` advances by the size of the clique's triangle, and the block `S_i` / `Z_i` stored at
+`old_s[row_ptr ..]`, `old_z[row_ptr ..]` in the layout of the clique's PSD triangle (position
+`tri(x, y)` holds the entry of the `x`-th and `y`-th clique vertex — the same layout in which
+`compact_rows` places the rows, `compact_block_indices`) is scattered to the original rows of
+the matrix entries `(C[x], C[y])`: ADDED to `s` (so that over all cliques `s = Σ_K E_Kᵀ S_K E_K`)
+and WRITTEN to `z` (a later clique overwrites an earlier one: last writer wins; consistent
+blocks give the common value); every other row of `s`, `z` is left alone. -/
+theorem reverse_compact_block [Add α] [OfNat α 0] (p : SPattern) (hp : ValidPattern p)
+    (i : Nat) (hi : i < p.sntree.nCliques) (s z oldS oldZ : Array α) (rowStart rowPtr : Nat)
+    (hT : ∀ x y, x ≤ y → y < (p.cliqueO i).length → blockTarget (p.cliqueO i) rowStart x y < s.size)
+    (hTz : ∀ x y, x ≤ y → y < (p.cliqueO i).length → blockTarget (p.cliqueO i) rowStart x y < z.size)
+    (hO : rowPtr + p.blk i ≤ oldS.size) (hOz : rowPtr + p.blk i ≤ oldZ.size) :
+    ∃ s' z', addBlocksWithSparsityPattern s z oldS oldZ rowStart p i rowPtr = .ok (s', z', rowPtr + p.blk i) ∧
+      s'.size = s.size ∧ z'.size = z.size ∧
+      (∀ x y, x ≤ y → y < (p.cliqueO i).length →
+        s'.getD (blockTarget (p.cliqueO i) rowStart x y) 0 =
+          s.getD (blockTarget (p.cliqueO i) rowStart x y) 0 +
+            oldS.getD (rowPtr + coordToUpperTriangularIndex (x, y)) 0 ∧
+        z'.getD (blockTarget (p.cliqueO i) rowStart x y) 0 =
+          oldZ.getD (rowPtr + coordToUpperTriangularIndex (x, y)) 0) ∧
+      (∀ slot, (∀ x y, x ≤ y → y < (p.cliqueO i).length → slot ≠ blockTarget (p.cliqueO i) rowStart x y) →
+        s'.getD slot 0 = s.getD slot 0 ∧ z'.getD slot 0 = z.getD slot 0) :=
+  addBlocksWithSparsityPattern_spec p hp i hi s z oldS oldZ rowStart rowPtr hT hTz hO hOz
+
+/-- non-vacuity of `reverse_compact_block`: clique 1 = `{1, 2}` of the 3×3 cone of `exPattern` -/
+example : ∃ s' z', addBlocksWithSparsityPattern (α := Int) (Array.replicate 6 1) (Array.replicate 6 0)
+    #[10, 20, 30] #[7, 8, 9] 0 exPattern 1 0 = .ok (s', z', 0 + exPattern.blk 1) := by
+  obtain ⟨s', z', h, _⟩ := reverse_compact_block (α := Int) exPattern exPattern_valid 1 (by decide)
+    (Array.replicate 6 1) (Array.replicate 6 0) #[10, 20, 30] #[7, 8, 9] 0 0
+    (fun x y hxy hy => by
+      have := blockTarget_lt exPattern exPattern_valid 1 (by decide) 0 x y hxy hy
+      have e : (0 : Nat) + triangularNumber exPattern.ordering.size = 6 := by decide
+      rw [e] at this
+      simpa using this)
+    (fun x y hxy hy => by
+      have := blockTarget_lt exPattern exPattern_valid 1 (by decide) 0 x y hxy hy
+      have e : (0 : Nat) + triangularNumber exPattern.ordering.size = 6 := by decide
+      rw [e] at this
+      simpa using this)
+    (by decide) (by decide)
+  exact ⟨s', z', h⟩
+
+/-- [S] `reverse_compact`: `decomp_reverse_compact`, run on the cone list and `cone_maps` that
+`compact_rows` produces, does not panic and returns `s`, `z` of length `m` with
+* rows of a cone that was not decomposed copied from their shifted rows;
+* the row of the entry `(a, b)` of a decomposed PSD cone holding, for `s`, the sum (left fold in
+  the order of the loop: cliques in descending post-order) of the `(a, b)` entries of all clique
+  blocks that contain it — `s = Σ_K E_Kᵀ S_K E_K` — and, for `z`, the `(a, b)` entry of the LAST
+  block visited that contains it (last writer wins: the clique with the smallest post-order
+  index); `0` for an entry in no clique;
+* rows outside every cone `0`. -/
+theorem reverse_compact [Add α] [OfNat α 0] (ci : ChordalInfo) (hv : ValidInfo ci)
+    (hfit : ∀ c, c < ci.initCones.size → ci.rs c + ci.nv c ≤ ci.initDims.2)
+    (oldCones : Array Cone) (coneMaps : Array ConeMapEntry)
+    (hcones : oldCones.toList = (List.range ci.initCones.size).flatMap ci.conesOf)
+    (hmaps : coneMaps.toList = (List.range ci.initCones.size).flatMap ci.mapsOf)
+    (oldS oldZ : Array α) (hS : ci.newStart ci.initCones.size ≤ oldS.size)
+    (hZ : ci.newStart ci.initCones.size ≤ oldZ.size) :
+    ∃ s z, decompReverseCompact ci coneMaps oldCones oldS oldZ = .ok (s, z) ∧
+      s.size = ci.initDims.2 ∧ z.size = ci.initDims.2 ∧
+      (∀ c, c < ci.initCones.size → ci.patAt c = none → ∀ k', k' < ci.nv c →
+        s.getD (ci.rs c + k') 0 = oldS.getD (ci.newStart c + k') 0 ∧
+        z.getD (ci.rs c + k') 0 = oldZ.getD (ci.newStart c + k') 0) ∧
+      (∀ c, c < ci.initCones.size → ∀ p, ci.patAt c = some p → ∀ k', k' < ci.nv c →
+        s.getD (ci.rs c + k') 0 = revFoldS p (ci.newStart c) oldS (upperTriangularIndexToCoord k').1
+          (upperTriangularIndexToCoord k').2 p.sntree.nCliques ∧
+        z.getD (ci.rs c + k') 0 = revFoldZ p (ci.newStart c) oldZ (upperTriangularIndexToCoord k').1
+          (upperTriangularIndexToCoord k').2 p.sntree.nCliques) ∧
+      (∀ r, (∀ c, c < ci.initCones.size → ¬(ci.rs c ≤ r ∧ r < ci.rs c + ci.nv c)) →
+        s.getD r 0 = 0 ∧ z.getD r 0 = 0) :=
+  decompReverseCompact_spec ci hv hfit oldCones coneMaps hcones hmaps oldS oldZ hS hZ
+
+/-- non-vacuity of `reverse_compact`, composed with `compact_rows` on the example -/
+example : ∃ tr s z, findCompactTriplets exCi exA exb = .ok tr ∧
+    decompReverseCompact (α := Int) exCi tr.coneMaps tr.conesNew (Array.replicate tr.dim 1)
+      (Array.replicate tr.dim 2) = .ok (s, z) ∧ s.size = 6 := by
+  obtain ⟨tr, h, hdim, _, _, _, _, _, _, _, _, _, _, hc, hm⟩ := compact_rows exCi exA exb exHyp ex_hnz ex_hpos
+  obtain ⟨s, z, h1, h2, _⟩ := reverse_compact (α := Int) exCi exCi_valid (by
+      intro c hc
+      have : c = 0 := by
+        have : c < 1 := hc
+        omega
+      subst this; decide) tr.conesNew tr.coneMaps hc hm
+    (Array.replicate tr.dim 1) (Array.replicate tr.dim 2) (by simp [hdim]) (by simp [hdim])
+  exact ⟨tr, s, z, h, h1, h2⟩
+
+/-- [F] over an additive commutative monoid the left fold of `reverse_compact` is the sum over the
+cliques containing the entry; [S] on consistent blocks (every clique containing `(a, b)` holds the
+same `z` value `v`) the returned dual entry is `v` (`0` if no clique contains the entry). -/
+theorem reverse_compact_sum [AddCommMonoid α] (p : SPattern) (row0 : Nat) (old : Array α) (a b d : Nat) :
+    revFoldS p row0 old a b d =
+      (((List.range d).filter (fun d' => decide (CliqueHas p a b d'))).map
+        (blockEntry p row0 old a b)).sum :=
+  revFoldS_eq_sum p row0 old a b d
+
+theorem reverse_compact_consistent [OfNat α 0] (p : SPattern) (row0 : Nat) (old : Array α) (a b d : Nat) (v : α)
+    (hv : ∀ d', d' < d → CliqueHas p a b d' → blockEntry p row0 old a b d' = v) :
+    revFoldZ p row0 old a b d = if ∃ d', d' < d ∧ CliqueHas p a b d' then v else 0 :=
+  revFoldZ_consistent p row0 old a b d v hv
+
+example := reverse_compact_consistent exPattern 0 (#[] : Array Int) 1 1 2 0 (by
+    intro d' _ _
+    simp [blockEntry])
+
+open Classical in
+/-- [F] `compact_equiv_slack`: the slack `S[r] = Σ_{ρ : OrigOf ρ r} st[ρ]` of `compact_equiv`, for
+the row of the entry `(a, b)` of a decomposed cone, is exactly the value that
+`decomp_reverse_compact` returns there (`reverse_compact`: the sum over the cliques containing the
+entry) when `old_s` stores the slack of the compact problem.  Hence a point satisfying the compact
+equalities, mapped back by `decomp_reverse_compact`, satisfies the original equalities. -/
+theorem compact_equiv_slack [AddCommMonoid α] (ci : ChordalInfo) (hv : ValidInfo ci) (c : Nat)
+    (hc : c < ci.initCones.size) (p : SPattern) (hp : ci.patAt c = some p) (k' : Nat) (hk' : k' < ci.nv c)
+    (st : Nat → α) (oldS : Array α)
+    (hold : ∀ ρ, ρ < ci.newStart ci.initCones.size → oldS.getD ρ 0 = st ρ) :
+    revFoldS p (ci.newStart c) oldS (upperTriangularIndexToCoord k').1 (upperTriangularIndexToCoord k').2
+        p.sntree.nCliques =
+      ∑ ρ ∈ Finset.range (ci.newStart ci.initCones.size), if OrigOf ci ρ (ci.rs c + k') then st ρ else 0 :=
+  revFoldS_eq_origSum ci hv c hc p hp k' hk' st oldS hold
+
+example := compact_equiv_slack (α := Int) exCi exCi_valid 0 (by decide) exPattern exCi_patAt 2 (by decide)
+  (fun _ => 1) (Array.replicate (exCi.newStart exCi.initCones.size) 1) (by
+    intro ρ hρ
+    simp [Array.getD, hρ])
+
+/-! ## PSD completion (`psd_completion.rs`; model `ClarabelModel/Chordal/PsdCompletion.lean`,
+proofs `ClarabelProofs/Lemmas/ChordalCompletion.lean`) -/
+
+
+/-- [S] **`completion_agrees` (index level).**  On a valid pattern (`ValidPattern`: C17's
+clique-tree predicate + `ordering` a permutation; `N = |ordering|`) the index-level model of
+`psd_complete` does not panic, the list of positions of the permuted matrix `W` written by the
+two `subsasgn` calls is the concatenation of the passes `j = n_cliques-2, …, 0`, and every
+written position `(x, y)` is in range and outside the clique pattern: no clique contains both
+`x` and `y`. -/
+theorem completion_writes_outside_pattern {p : SPattern} (h : ValidPattern p) :
+    ∃ ws, psdCompleteWritten p p.ordering.size = .ok ws ∧
+      ws = (List.range (p.sntree.nCliques - 1)).reverse.flatMap
+              (stepPositions p.sntree p.ordering.size) ∧
+      ∀ rc ∈ ws, rc.1 < p.ordering.size ∧ rc.2 < p.ordering.size ∧
+        ∀ k, k < p.sntree.nCliques →
+          ¬ (rc.1 ∈ p.sntree.cliqueAt k ∧ rc.2 ∈ p.sntree.cliqueAt k) :=
+  psdCompleteWritten_spec h
+
+example : ∃ ws, psdCompleteWritten exPattern exPattern.ordering.size = .ok ws ∧
+    ∀ rc ∈ ws, rc.1 < 3 ∧ rc.2 < 3 ∧ ∀ k, k < exPattern.sntree.nCliques →
+      ¬ (rc.1 ∈ exPattern.sntree.cliqueAt k ∧ rc.2 ∈ exPattern.sntree.cliqueAt k) := by
+  obtain ⟨ws, h1, _, h2⟩ := completion_writes_outside_pattern exPattern_valid
+  exact ⟨ws, h1, h2⟩
+
+/-- [S] the same in the coordinates of `A` (model of channel `psd_complete.written`): every entry
+`i + N·j` of the output that is a copy of a written position of `W` lies outside every clique
+block `ordering[clique k] × ordering[clique k]`. -/
+theorem completion_changed_outside_blocks {p : SPattern} (h : ValidPattern p) :
+    ∃ cs, psdCompleteChanged p p.ordering.size = .ok cs ∧
+      ∀ c ∈ cs, ∃ i j, i < p.ordering.size ∧ j < p.ordering.size ∧
+        c = i + p.ordering.size * j ∧
+        ∀ k, k < p.sntree.nCliques → ∀ x ∈ p.sntree.cliqueAt k, ∀ y ∈ p.sntree.cliqueAt k,
+          ¬ (p.ordering.getD x 0 = i ∧ p.ordering.getD y 0 = j) :=
+  psdCompleteChanged_spec h
+
+example : psdCompleteChanged exPattern exPattern.ordering.size = .ok [2, 6] := by rfl
+
+/-- [S] **the completion fills everything else**: if moreover every supernode is stored with
+its smallest vertex first (`ν = k, k+1, …`, as `reorder_snode_consecutively` leaves it), every
+position outside the clique pattern is written — the written set is exactly the complement of
+the pattern (this is what the oracle of channel `psd_complete.written` observes bit for bit). -/
+theorem completion_covers_complement {p : SPattern} (h : ValidPattern p)
+    (hfirst : ∀ j, j < p.sntree.nCliques →
+      (p.sntree.snodeAt j).head? = some (p.sntree.snodeOffset j))
+    {ws : List (Nat × Nat)} (hws : psdCompleteWritten p p.ordering.size = .ok ws)
+    (rc : Nat × Nat) (h1 : rc.1 < p.ordering.size) (h2 : rc.2 < p.ordering.size)
+    (hno : ∀ k, k < p.sntree.nCliques →
+      ¬ (rc.1 ∈ p.sntree.cliqueAt k ∧ rc.2 ∈ p.sntree.cliqueAt k)) : rc ∈ ws :=
+  psdCompleteWritten_covers h hfirst hws rc ⟨h1, h2, hno⟩
+
+example : (2, 0) ∈ [(2, 0), (0, 2)] :=
+  completion_covers_complement (p := exPattern) exPattern_valid (by
+    intro j hj
+    have : j = 0 ∨ j = 1 := by
+      have : j < 2 := hj
+      omega
+    rcases this with rfl | rfl <;> rfl) (by rfl) (2, 0) (by decide) (by decide) (by
+    intro k hk
+    have : k = 0 ∨ k = 1 := by
+      have : k < 2 := hk
+      omega
+    rcases this with rfl | rfl <;> decide)
+
+/-- [S] **`completion_agrees` (data level).**  `psdComplete ext A N p` is `psd_complete` on the
+column-major storage `A` of an `N × N` matrix with everything LAPACK/BLAS computes (Cholesky or
+SVD solve of `Wαα \ Wαν`, the product `Wηα·Y`) abstracted into the arbitrary, possibly failing,
+function `ext`.  On a valid pattern, whatever `ext` returns: if the call returns `B` then `B`
+has the entries of `A` on every clique block `ordering[clique k] × ordering[clique k]`. -/
+theorem completion_agrees {α : Type} [OfNat α 0] (ext : Nat → Array α → MErr (Nat × Nat → α))
+    {p : SPattern} (h : ValidPattern p) (A B : Array α)
+    (hB : psdComplete ext A p.ordering.size p = .ok B) :
+    ∀ k, k < p.sntree.nCliques → ∀ x ∈ p.sntree.cliqueAt k, ∀ y ∈ p.sntree.cliqueAt k,
+      B[linIdx p.ordering.size (p.ordering.getD x 0, p.ordering.getD y 0)]? =
+        A[linIdx p.ordering.size (p.ordering.getD x 0, p.ordering.getD y 0)]? :=
+  psdComplete_agrees ext h A B hB
+
+/-- [S] frame form: `B` differs from `A` at most at the positions listed by
+`psdCompleteChanged` (the list that channel `psd_complete.written` compares with the bits the
+implementation changes); sizes are preserved. -/
+theorem completion_frame {α : Type} [OfNat α 0] (ext : Nat → Array α → MErr (Nat × Nat → α))
+    {p : SPattern} (h : ValidPattern p) (A B : Array α)
+    (hB : psdComplete ext A p.ordering.size p = .ok B) :
+    A.size = p.ordering.size * p.ordering.size ∧ B.size = p.ordering.size * p.ordering.size ∧
+      ∃ cs, psdCompleteChanged p p.ordering.size = .ok cs ∧
+        ∀ i j, i < p.ordering.size → j < p.ordering.size →
+          linIdx p.ordering.size (i, j) ∉ cs →
+          B[linIdx p.ordering.size (i, j)]? = A[linIdx p.ordering.size (i, j)]? :=
+  psdComplete_frame ext h A B hB
+
+/-- [S] no index operation of `psd_complete` panics on a valid pattern with an `N × N` input:
+the call returns whenever the external steps do. -/
+theorem completion_no_panic {α : Type} [OfNat α 0] (ext : Nat → Array α → MErr (Nat × Nat → α))
+    (hext : ∀ j W, ∃ f, ext j W = .ok f) {p : SPattern} (h : ValidPattern p) (A : Array α)
+    (hA : A.size = p.ordering.size * p.ordering.size) :
+    ∃ B, psdComplete ext A p.ordering.size p = .ok B :=
+  psdComplete_ok ext hext h A hA
+
+/-- non-vacuity of `completion_agrees` / `completion_frame` / `completion_no_panic`: the path
+`0 — 1 — 2`, external step returning the constant `7` -/
+example : psdComplete (α := Nat) (fun _ _ => .ok (fun _ => 7)) #[1, 2, 0, 2, 3, 4, 0, 4, 5]
+    exPattern.ordering.size exPattern = .ok #[1, 2, 7, 2, 3, 4, 7, 4, 5] := by rfl
+
+example : ∃ B, psdComplete (α := Nat) (fun _ _ => .ok (fun _ => 7)) #[1, 2, 0, 2, 3, 4, 0, 4, 5]
+    exPattern.ordering.size exPattern = .ok B :=
+  completion_no_panic _ (fun _ _ => ⟨_, rfl⟩) exPattern_valid _ rfl
+
 
 end Clarabel.C18
